@@ -18,6 +18,23 @@ LEVEL = "model_checking"
 CORE = "dclab.rtdc_dataset.core:RTDCBase"
 
 TMPF = "vf_tmp_c06"
+PLUG = "vf_plug_c06"
+
+
+def _plug_method(ds):
+    return {PLUG: 2.0 * np.asarray(ds["area_um"]) + 1.0}
+
+
+def register_plugin():
+    """A plugin feature that depends on another (possibly computed)
+    feature: a two-stage cache chain."""
+    from dclab.rtdc_dataset.feat_anc_plugin import PlugInFeature
+    from dclab.rtdc_dataset.feat_anc_core import AncillaryFeature
+    if PLUG not in AncillaryFeature.feature_names:
+        PlugInFeature(PLUG, {"method": _plug_method,
+                             "feature names": [PLUG],
+                             "features required": ["area_um"],
+                             "scalar feature": [True], "version": "1"})
 
 EMOD_DATA = {
     "area_cvx": np.array([350.0, 700.0, 1040.0, 1730.0, 2420.0, 4300.0]),
@@ -96,7 +113,7 @@ class AncDriver(explore.Driver):
         self.nfl = nfl
         self.child = child
         if family == "emod":
-            self.watch = ["emodulus", "time", "area_um"]
+            self.watch = ["emodulus", PLUG, "time", "area_um"]
             self.edits = EMOD_EDITS
         else:
             self.watch = ["fl1_max_ctc", "fl2_max_ctc", "fl3_max_ctc"]
@@ -120,7 +137,7 @@ class AncDriver(explore.Driver):
                 d.pop(f"fl{ch}_max")
         return d
 
-    def _new(self, cfg, tmp):
+    def _new(self, cfg, tmp, shadow=None):
         import dclab
         ds = dclab.new_dataset(self.data())
         for sec, dd in cfg.items():
@@ -128,12 +145,15 @@ class AncDriver(explore.Driver):
                 ds.config[sec][k] = v
         if tmp is not None:
             dclab.set_temporary_feature(ds, TMPF, tmp)
+        for feat, data in (shadow or {}).items():
+            dclab.set_temporary_feature(ds, feat, data)
         return ds
 
     def fresh(self):
         import dclab
         from dclab.definitions import feat_logic
         lut.register(self.scratch)
+        register_plugin()
         if not feat_logic.feature_exists(TMPF):
             dclab.register_temporary_feature(TMPF)
         st = St()
@@ -142,6 +162,7 @@ class AncDriver(explore.Driver):
         for sec, dd in SCENARIOS[self.scenario].items():
             st.cfg.setdefault(sec, {}).update(dd)
         st.tmp = None
+        st.shadow = {}
         st.ds = self._new(st.cfg, None)
         st.child = dclab.new_dataset(st.ds) if self.child else None
         st.err = None
@@ -162,6 +183,12 @@ class AncDriver(explore.Driver):
             out.append((["avail", f], 1))
         out.append((["tmp", 0], 1))
         out.append((["tmp", 1], 1))
+        if self.family == "emod":
+            # a temporary feature may shadow a feature other computed
+            # features depend on
+            for feat in ("deform", "area_um"):
+                for v in (0, 1):
+                    out.append((["shadow", feat, v], 1))
         if self.child:
             out.append((["refresh"], 0))
         return out
@@ -193,6 +220,14 @@ class AncDriver(explore.Driver):
                 n = len(ds)
                 st.tmp = np.arange(n) * 1.5 + 100 * op[1]
                 dclab.set_temporary_feature(ds, TMPF, st.tmp)
+            elif kind == "shadow":
+                import dclab
+                _, feat, v = op
+                base = EMOD_DATA[feat]
+                data = base * (1.1 + 0.2 * v)
+                st.shadow[feat] = data
+                dclab.set_temporary_feature(ds, feat, data)
+                st.last_edit = f"shadow {feat}"
             elif kind == "refresh":
                 st.child.rejuvenate()
             else:
@@ -224,7 +259,7 @@ class AncDriver(explore.Driver):
         if st.err:
             bad("exception", st.err, exc=st.err.split(": ")[1])
             return out
-        ref = self._new(st.cfg, st.tmp)
+        ref = self._new(st.cfg, st.tmp, st.shadow)
         targets = [("live", st.ds)]
         if self.child:
             st.child.rejuvenate()
@@ -297,6 +332,10 @@ class AncDriver(explore.Driver):
         d = self.data()
         px = st.cfg["imaging"]["pixel size"]
         area = d["area_um"] if "area_um" in d else d["area_cvx"] * px ** 2
+        # a temporary feature only shadows *computed* features; stored
+        # (innate) features take precedence over temporary ones
+        if "area_um" not in d:
+            area = st.shadow.get("area_um", area)
         kw = dict(area_um=area, deform=d["deform"],
                   channel_width=st.cfg["setup"]["channel width"],
                   flow_rate=st.cfg["setup"]["flow rate"], px_um=px,
@@ -397,7 +436,11 @@ def run(ctx):
     plans.append(dict(family="ctc", scenario="ctc2x", nfl=2))
     plans.append(dict(family="ctc", scenario="ctc3", nfl=3))
     plans.append(dict(family="ctc", scenario="ctc2", nfl=3))
-    res = par.pmap(_bfs_one, [(p, depth, dev, scratch) for p in plans])
+    res = []
+    for pl in plans:
+        drv = AncDriver(scratch, **pl)
+        stats, vs = explore.bfs(drv, max_depth=depth, max_dev=dev)
+        res.append((pl, stats, vs))
     parts, viols = [], []
     for cfg, stats, vs in res:
         nm = "-".join(f"{v}" for v in cfg.values())
